@@ -406,9 +406,12 @@ func TestVerif_C13(t *testing.T) {
 	sb.WriteString("Fixpoint zip3 {A B : Type} (c : list (list bs * nat)) (r : list A) (o : list B) : list (list bs * nat * A * B) := match c, r, o with x :: c', a :: r', b :: o' => (x, a, b) :: zip3 c' r' o' | _, _, _ => [] end.\n")
 	sb.WriteString("Definition ob_eqb (a b : option bool) : bool := match a, b with Some x, Some y => Bool.eqb x y | None, None => true | _, _ => false end.\n")
 	sb.WriteString("Definition c13_bad (c : option parsed * list (list pres) * list (option bool) * list bool * bool) : bool :=\n  let '(p, res, obs, cors, generic) := c in\n  negb (Nat.eqb (length res) (length configs)) || negb (Nat.eqb (length obs) (length configs))\n  || negb (forallb (fun x : list bs * nat * list pres * option bool => let '(cfg, pats, o) := x in Nat.eqb (length pats) (snd cfg) && ob_eqb (can_redirect_p (fst cfg) pats p) o) (zip3 configs res obs))\n  || negb (forallb (fun x : list bs * nat * list pres * bool => let '(cfg, _, o) := x in Bool.eqb (cors_allowed (fst cfg) p) o) (zip3 configs res cors))\n  || negb (Bool.eqb (cors_allowed all_domains p) generic).\n")
+	// the property predicate on the observation (round-2 rule): the implementation ALLOWS a redirect / an origin
+	// that the specification (the model, which provably satisfies C13) refuses — such a case is a failing input
+	sb.WriteString("Definition c13_viol (c : option parsed * list (list pres) * list (option bool) * list bool * bool) : bool :=\n  let '(p, res, obs, cors, generic) := c in\n  existsb (fun x : list bs * nat * list pres * option bool => let '(cfg, pats, o) := x in match o with Some true => negb (ob_eqb (can_redirect_p (fst cfg) pats p) (Some true)) | _ => false end) (zip3 configs res obs)\n  || existsb (fun x : list bs * nat * list pres * bool => let '(cfg, _, o) := x in o && negb (cors_allowed (fst cfg) p)) (zip3 configs res cors)\n  || (generic && negb (cors_allowed all_domains p)).\n")
 	// sharded: one list literal of tens of thousands of records overflows coqc's stack (thorough tier)
 	const c13Shard = 2000
-	var mparts, lparts []string
+	var mparts, lparts, vparts []string
 	for i := 0; i < len(cases); i += c13Shard {
 		end := i + c13Shard
 		if end > len(cases) {
@@ -417,6 +420,7 @@ func TestVerif_C13(t *testing.T) {
 		name := fmt.Sprintf("cases%d", i/c13Shard)
 		sb.WriteString("Definition " + name + " : list (option parsed * list (list pres) * list (option bool) * list bool * bool) := [\n " + strings.Join(cases[i:end], ";\n ") + "].\n")
 		mparts = append(mparts, fmt.Sprintf("mismatches_from c13_bad %s %d", name, i))
+		vparts = append(vparts, fmt.Sprintf("mismatches_from c13_viol %s %d", name, i))
 		lparts = append(lparts, "length "+name)
 	}
 	var pm, pa []string
@@ -433,7 +437,7 @@ func TestVerif_C13(t *testing.T) {
 	sb.WriteString("Definition c13_split_mismatches := Eval vm_compute in (" + strings.Join(pm, " ++ ") + ")%list.\nPrint c13_split_mismatches.\n")
 	sb.WriteString("Definition c13_split_accepted := Eval vm_compute in (" + strings.Join(pa, " + ") + ")%nat.\nPrint c13_split_accepted.\n")
 	ioutil.WriteFile(filepath.Join(verifOut(), "CasesC13split.idx"), []byte(strings.Join(pidx, "\n")), 0644)
-	sb.WriteString("Definition c13_mismatches := Eval vm_compute in (" + strings.Join(mparts, " ++ ") + ")%list.\nPrint c13_mismatches.\nDefinition c13_ncases := Eval vm_compute in (" + strings.Join(lparts, " + ") + ")%nat.\nPrint c13_ncases.\n")
+	sb.WriteString("Definition c13_mismatches := Eval vm_compute in (" + strings.Join(mparts, " ++ ") + ")%list.\nPrint c13_mismatches.\nDefinition c13_violating := Eval vm_compute in (" + strings.Join(vparts, " ++ ") + ")%list.\nPrint c13_violating.\nDefinition c13_ncases := Eval vm_compute in (" + strings.Join(lparts, " + ") + ")%nat.\nPrint c13_ncases.\n")
 	if err := ioutil.WriteFile(filepath.Join(verifOut(), "CasesC13.v"), []byte(sb.String()), 0644); err != nil {
 		t.Fatal(err)
 	}
